@@ -17,7 +17,7 @@ SHARDS = {"quick": 8, "thorough": 16}
 # "all whitespace": every character str.isspace() accepts (what str.strip() removes), not just the ASCII ones
 WS = "".join(chr(c) for c in range(0x3100) if chr(c).isspace())
 TEXTS = ["ab", " ab ", "\n  ", " \t", "x}y ", " %} z", "a #} ", "{ b\n", "\r\n c \f\v", "\u00a0 d\u2003\u2028", "\x1c\x85e \u3000"]
-KINDS = ["out", "echo", "raw", "comment", "doc", "inline", "liquid", "tcomment"]
+KINDS = ["out", "echo", "raw", "comment", "doc", "inline", "liquid", "liquidc", "tcomment"]
 BODIES = {
     "raw": [" b ", "{{ n }} {% if %}", "\n"],
     "comment": [" c ", "{% comment %} i {% endcomment %} {{ x }}", ""],
@@ -55,6 +55,8 @@ def piece_src(p) -> str:
         return "{%" + l + " #" + (" " + body + " " if body else " ") + r + "%}"
     if t == "liquid":
         return "{%" + l + " liquid\n echo 'L'\n " + r + "%}"
+    if t == "liquidc":  # a liquid tag holding a block comment with a body, an empty one and a line comment
+        return "{%" + l + " liquid\n comment\n echo 'hidden'\n assign q = 1\n endcomment\n comment\n endcomment\n # note\n echo 'L'\n " + r + "%}"
     if t == "tcomment":
         body = p.get("v", "tc")
         # "{#-#}" would be ambiguous: keep a space between the hyphens of an empty comment
@@ -70,7 +72,7 @@ def piece_src(p) -> str:
 
 def contribution(p) -> str:
     t = p["t"]
-    return {"out": "X", "echo": "E", "liquid": "L", "raw": p.get("v", "")}.get(t, "")
+    return {"out": "X", "echo": "E", "liquid": "L", "liquidc": "L", "raw": p.get("v", "")}.get(t, "")
 
 
 def expected(pieces) -> str:
